@@ -290,6 +290,7 @@ def run(chk) -> None:
     results = pool.run_jobs(job_api, jobs, nproc=max(2, NCPU // 2), timeout=180)
 
     records = []
+    unbindable: list[str] = []
     for job, res in zip(jobs, results):
         case = {"n": job["n"], "k": job["k"], "pool": job["pool"], "sched": job["sched"],
                 "layout": job["layout"]}
@@ -303,10 +304,18 @@ def run(chk) -> None:
         abst = abstract_result(job, out["seq"], out["par"], fileno)
         pooled = job["n"] >= 2 * job["k"]
         chk.count(case, nontrivial=pooled or abs(job["n"] - 2 * job["k"]) <= 1)
-        lin = linearize(out["events"], job, out)
-        records.append({"n": job["n"], "k": job["k"], "cross": job["cross"], "events": lin,
-                        "pf": abst["pf"], "x": abst["x"], "extra": abst["extra"],
-                        "fails": len(out["fails"]), "jobi": len(records)})
+        try:
+            lin = linearize(out["events"], job, out)
+        except (KeyError, TypeError, IndexError, AttributeError, ValueError) as ex:
+            # the tap's events no longer have the shape Parallel.tla's actions are bound to (a task is no longer
+            # one file, an event lost a field ...): the trace cannot be judged.  The comparison of the results
+            # with the sequential run below does not depend on the trace and goes on.
+            unbindable.append(f"{type(ex).__name__}: {ex} (N={job['n']} K={job['k']} {job['pool']})")
+            lin = None
+        if lin is not None:
+            records.append({"n": job["n"], "k": job["k"], "cross": job["cross"], "events": lin,
+                            "pf": abst["pf"], "x": abst["x"], "extra": abst["extra"],
+                            "fails": len(out["fails"]), "jobi": len(records)})
         path = "pool" if pooled else "fallback"
         for v in abst["missing"]:
             chk.reject({"path": path, "clause": "Missing", "rule": v["rule_id"]},
@@ -319,7 +328,8 @@ def run(chk) -> None:
                        dict(case, kind="api", fail=f), f"swallowed failure in parallel run: {f}")
 
     # 3. trace validation by TLC, grouped by constants
-    validate(chk, records)
+    if records:
+        validate(chk, records)
 
     # 4. CLI level: exit code and output, every command
     cjobs = []
@@ -359,6 +369,11 @@ def run(chk) -> None:
             chk.reject({"path": path, "clause": "Exit", "cmd": job["cmd"],
                         "because": "cross-file-lost" if only_cross and (cs - cp) else "other"}, case,
                        f"thailint {job['cmd']}: exit {o['seq']['exit']} sequential vs {o['par']['exit']} --parallel")
+    if unbindable:
+        chk.notes.append(f"{len(unbindable)} run(s) produced events that cannot be bound to Parallel.tla: {unbindable[0]}")
+        if not chk.rejections:
+            raise MachineryError(f"C07: the H2 events of {len(unbindable)} run(s) cannot be bound to Parallel.tla's "
+                                 f"actions and the results agree with the sequential run: {unbindable[0]}")
 
 
 def validate(chk, records) -> None:
